@@ -5421,6 +5421,10 @@ class CodegenCtx:
         result.add("#if defined(__clang__)")
         result.add("#pragma clang diagnostic ignored \"-Wtautological-constant-out-of-range-compare\"")
         result.add("#endif")
+        # ... or compare an expression with itself (i0 < i0), which both gcc and clang put under -Wall
+        result.add("#if defined(__clang__) || (defined(__GNUC__) && __GNUC__ >= 6)")
+        result.add("#pragma GCC diagnostic ignored \"-Wtautological-compare\"")
+        result.add("#endif")
         result.add()
         result += self._generate_start_implementation()
         result += self._generate_feed_implementation()
